@@ -102,6 +102,14 @@ def run(ctx):
                 f = scale_mode[0] * float(rng.choice([1.0, 3.0, 0.25]))
                 probs = {k_: v_ * f for k_, v_ in probs.items()}
             out.append(probs)
+        if rng.random() < 0.2:
+            # the lists handed over are the experiment's to reorder or empty once it has answered in the order received
+            for lst_ in (circuits, inputs):
+                if isinstance(lst_, list) and len(lst_) > 1:
+                    lst_.append(lst_.pop(0))
+                    if rng.random() < 0.3:
+                        lst_.clear()
+            ctx.bucket("experiment_reorders_the_lists_it_was_given")
         return out
 
     fl = {"armed": False, "how": None}
